@@ -10,9 +10,14 @@ sed -i "s#/repo#$WT#g" $H/harness/Cargo.toml
 sed -i "s#target-dir = \"/verif/target\"#target-dir = \"$H/target\"#" $H/harness/.cargo/config.toml
 cp /verif/known_findings.json $H/v/
 cd $H/harness && CARGO_NET_OFFLINE=true cargo build --offline --profile chk > $H/build.log 2>&1 || { echo "BUILD-FAILED"; tail -5 $H/build.log; cd $WT && git checkout -q -- .; exit 8; }
-VERIF_DIR=/verif $H/target/chk/mv check $P --tier $TIER --verif $H/v > $H/out-$(basename $PATCH).log 2>&1
+rm -rf $H/v/evidence/replay/$P; VERIF_DIR=/verif $H/target/chk/mv check $P --tier $TIER --verif $H/v > $H/out-$P-$(basename $PATCH).log 2>&1
 RC=$?
 echo "== $P $(basename $PATCH) exit=$RC"
-grep -E "^property=|^VIOLATION|^INCONCLUSIVE" $H/out-$(basename $PATCH).log | head -4
-grep "  class" $H/out-$(basename $PATCH).log | grep -v "KNOWN" | sed -E 's/ x[0-9]+$//' | awk -F' :: ' '{print $2}' | sort | uniq -c | sort -rn | head -8
+grep -E "^property=|^VIOLATION|^INCONCLUSIVE" $H/out-$P-$(basename $PATCH).log | head -4
+echo "unlisted violation classes (from witnesses):"
+python3 - <<PY
+import json,glob,collections
+c=collections.Counter(json.load(open(f))['class'] for f in glob.glob('$H/v/evidence/replay/$P/w*.json'))
+print('  '+', '.join(f'{k} x{v}' for k,v in c.most_common(8)) if c else '  none')
+PY
 cd $WT && git checkout -q -- .
